@@ -189,7 +189,7 @@ def run_entry(entry, n, seed, acc, tier):
     def case(draw):
         ch = docgen.HypChooser(draw)
         mode = ch.choice(['plain', 'plain', 'hostile', 'hostile', 'many-groups', 'ta1'])
-        kw = dict(envelope=.3)
+        kw = dict(envelope=.45)
         delims = None
         if mode == 'hostile':
             delims = ch.choice([('|', '!', '>', '`'), ('\n', '|', '\\', '`'), ('\x1c', '\x1d', '\x1e', '\x1f')])
